@@ -9,11 +9,20 @@ Open Scope string_scope.
 Definition copy_table_ref : list (string * string * string) :=
   [("model", "named:Model", "other"); ("scores", "map", "make+elem:local:score"); ("values", "map", "make+elem:copyslice:values"); ("objectiveStopData", "map", "make+elem:make"); ("constraintStopData", "map", "make+elem:make"); ("objectiveSolutionData", "map", "make+elem:call:s.objectiveSolutionData.Copy"); ("constraintSolutionData", "map", "make+elem:call:s.constraintSolutionData.Copy"); ("cumulativeValues", "map", "make+elem:copyslice:cumulativeValues"); ("stopToPlanUnit", "slice", "make"); ("random", "pointer", "call:rand.New"); ("plannedPlanUnits", "named:solutionPlanUnitCollectionBaseImpl", "new:newSolutionPlanUnitCollectionBaseImpl+method:add(call:copySolutionPlanUnit)"); ("fixedPlanUnits", "named:solutionPlanUnitCollectionBaseImpl", "new:newSolutionPlanUnitCollectionBaseImpl+method:add(call:copySolutionPlanUnit)"); ("unPlannedPlanUnits", "named:solutionPlanUnitCollectionBaseImpl", "new:newSolutionPlanUnitCollectionBaseImpl+method:add(call:copySolutionPlanUnit)"); ("propositionPlanUnits", "named:solutionPlanUnitCollectionBaseImpl", "new:newSolutionPlanUnitCollectionBaseImpl"); ("vehicleIndices", "slice", "copyslice:vehicleIndices"); ("vehicles", "slice", "clone:vehicles"); ("solutionVehicles", "slice", "clone:solutionVehicles+elem:other"); ("start", "slice", "copyslice:start"); ("slack", "slice", "copyslice:slack"); ("arrival", "slice", "copyslice:arrival"); ("next", "slice", "copyslice:next"); ("stopPosition", "slice", "copyslice:stopPosition"); ("first", "slice", "copyslice:first"); ("stop", "slice", "copyslice:stop"); ("cumulativeTravelDuration", "slice", "copyslice:cumulativeTravelDuration"); ("end", "slice", "copyslice:end"); ("previous", "slice", "copyslice:previous"); ("inVehicle", "slice", "copyslice:inVehicle"); ("last", "slice", "copyslice:last"); ("randomMutex", "named:sync.Mutex", "untouched")].
 
+Definition solution_copy_shared_ref : list (string * string) :=
+  [].
+
+Definition solution_copy_body_ref : list sk :=
+  [(SLock "randomMutex"); (SCall "Int63"); (SUnlock "randomMutex"); (SFor [(SFor [(SIf [] [(SCall "Copy")])])]); (SFor [(SIf [(SCall "Copy")] [])]); (SFor [(SFor [(SIf [] [(SCall "Copy")])])]); (SFor [(SIf [(SCall "Copy")] [])]); (SReturn)].
+
+Definition factory_captures_ref : list (string * nat * list string * list string) :=
+  [("DefaultSolverFactory", 1, [], []); ("DefaultSolveOptionsFactory", 1, [], [])].
+
 Definition parallel_solve_shared_ref : list (string * string) :=
   [("bestSolution", "plain"); ("bestSolutionMutex", "mutex"); ("cancel", "func"); ("ctx", "plain"); ("interpretedParallelSolveOptions", "plain"); ("iterationsLeft", "atomic"); ("parallelCount", "chan"); ("parallelRuns", "plain"); ("reportBestSolution", "func"); ("resultChannel", "chan"); ("solutions", "plain"); ("solutionsMutex", "mutex"); ("syncResultChannel", "chan"); ("totalIterations", "atomic"); ("waitGroup", "wg")].
 
 Definition parallel_solve_body_ref : list sk :=
-  [(SIf [(SReturn)] []); (SIf [(SReturn)] []); (SRead "interpretedParallelSolveOptions"); (SIf [(SRead "interpretedParallelSolveOptions")] []); (SRead "interpretedParallelSolveOptions"); (SIf [(SRead "interpretedParallelSolveOptions")] []); (SRead "interpretedParallelSolveOptions"); (SIf [(SRead "interpretedParallelSolveOptions")] []); (SIf [(SIf [(SReturn)] [])] []); (SFor [(SIf [(SReturn)] []); (SIf [(SReturn)] [])]); (SRead "ctx"); (SRead "ctx"); (SRead "interpretedParallelSolveOptions"); (SRead "solutions"); (SRead "interpretedParallelSolveOptions"); (SRead "parallelRuns"); (SIf [(SWrite "parallelRuns")] []); (SRead "parallelRuns"); (SRead "solutions"); (SRead "solutions"); (SFor [(SRead "bestSolution"); (SIf [(SWrite "bestSolution")] [])]); (SRead "bestSolution"); (SCall "Copy"); (SWrite "bestSolution"); (SRead "parallelRuns"); (SRead "bestSolution"); (SSend "resultChannel"); (SRead "interpretedParallelSolveOptions"); (SAtomic "iterationsLeft" "Store"); (SGo [(SDefer [SClose "syncResultChannel"]); (SFor [(SFor [SRead "parallelRuns"; (SSelect [("comm", [SRecv "ctx.Done"; (SWgWait "waitGroup"); (SBreak "Loop")]); ("default", [(SSend "parallelCount"); (SWgAdd "waitGroup"); (SGo [(SDefer [(SRecv "parallelCount"); (SWgDone "waitGroup")]); (SLock "bestSolutionMutex"); (SRead "bestSolution"); (SCall "Copy"); (SUnlock "bestSolutionMutex"); (SLock "solutionsMutex"); (SRead "solutions"); (SIf [(SRead "solutions"); (SRead "solutions"); (SRead "solutions"); (SWrite "solutions")] []); (SUnlock "solutionsMutex"); (SRead "parallelRuns"); (SCall "Random"); (SIf [(SCall "panic")] []); (SCallback [(SAtomic "totalIterations" "Add"); (SRead "interpretedParallelSolveOptions"); (SIf [(SCall "cancel")] [])]); (SIf [(SCall "panic")] []); (SAtomic "iterationsLeft" "Add"); (SIf [(SRecv "ctx.Done"); (SReturn)] []); (SRead "ctx"); (SCall "Solve"); (SIf [(SCall "panic")] []); (SRange "solutionChannel" [(SAtomic "totalIterations" "Load"); (SSend "syncResultChannel")])])])])]); (SRead "interpretedParallelSolveOptions"); (SIf [(SWgWait "waitGroup")] [])])]); (SGo [(SDefer [(SAtomic "totalIterations" "Load"); (SClose "resultChannel"); (SRead "bestSolution")]); (SRange "syncResultChannel" [(SIf [(SSend "resultChannel"); (SCall "cancel"); (SContinue)] []); (SRead "bestSolution"); (SIf [(SContinue)] []); (SCall "Copy"); (SLock "bestSolutionMutex"); (SWrite "bestSolution"); (SUnlock "bestSolutionMutex"); (SCall "Copy"); (SSend "resultChannel")])]); (SReturn)].
+  [(SIf [(SReturn)] []); (SIf [(SReturn)] []); (SRead "interpretedParallelSolveOptions"); (SIf [(SRead "interpretedParallelSolveOptions")] []); (SRead "interpretedParallelSolveOptions"); (SIf [(SRead "interpretedParallelSolveOptions")] []); (SRead "interpretedParallelSolveOptions"); (SIf [(SRead "interpretedParallelSolveOptions")] []); (SIf [(SIf [(SReturn)] [])] []); (SFor [(SIf [(SReturn)] []); (SIf [(SReturn)] [])]); (SRead "ctx"); (SRead "ctx"); (SRead "interpretedParallelSolveOptions"); (SCall "WithDeadline"); (SRead "solutions"); (SRead "interpretedParallelSolveOptions"); (SRead "parallelRuns"); (SIf [(SWrite "parallelRuns")] []); (SRead "parallelRuns"); (SRead "solutions"); (SRead "solutions"); (SFor [(SRead "bestSolution"); (SIf [(SWrite "bestSolution")] [])]); (SRead "bestSolution"); (SCall "Copy"); (SWrite "bestSolution"); (SRead "parallelRuns"); (SRead "bestSolution"); (SSend "resultChannel"); (SRead "interpretedParallelSolveOptions"); (SAtomic "iterationsLeft" "Store"); (SGo [(SDefer [SClose "syncResultChannel"]); (SFor [(SFor [SRead "parallelRuns"; (SSelect [("comm", [SRecv "ctx.Done"; (SWgWait "waitGroup"); (SBreak "Loop")]); ("default", [(SSend "parallelCount"); (SWgAdd "waitGroup"); (SGo [(SDefer [(SRecv "parallelCount"); (SWgDone "waitGroup")]); (SLock "bestSolutionMutex"); (SRead "bestSolution"); (SCall "Copy"); (SUnlock "bestSolutionMutex"); (SLock "solutionsMutex"); (SRead "solutions"); (SIf [(SRead "solutions"); (SRead "solutions"); (SRead "solutions"); (SWrite "solutions")] []); (SUnlock "solutionsMutex"); (SRead "parallelRuns"); (SCall "Random"); (SIf [(SCall "panic")] []); (SCallback [(SAtomic "totalIterations" "Add"); (SRead "interpretedParallelSolveOptions"); (SIf [(SCall "cancel")] [])]); (SIf [(SCall "panic")] []); (SAtomic "iterationsLeft" "Add"); (SIf [(SRecv "ctx.Done"); (SReturn)] []); (SRead "ctx"); (SCall "Solve"); (SIf [(SCall "panic")] []); (SRange "solutionChannel" [(SAtomic "totalIterations" "Load"); (SSend "syncResultChannel")])])])])]); (SRead "interpretedParallelSolveOptions"); (SIf [(SWgWait "waitGroup")] [])])]); (SGo [(SDefer [(SAtomic "totalIterations" "Load"); (SClose "resultChannel"); (SRead "bestSolution")]); (SRange "syncResultChannel" [(SIf [(SSend "resultChannel"); (SCall "cancel"); (SContinue)] []); (SRead "bestSolution"); (SIf [(SContinue)] []); (SCall "Copy"); (SLock "bestSolutionMutex"); (SWrite "bestSolution"); (SUnlock "bestSolutionMutex"); (SCall "Copy"); (SSend "resultChannel")])]); (SReturn)].
 
 Definition pool_vars_ref : list string :=
   ["moveContainerPool"; "solutionGeneratorPool"; "unplanSolutionMove"].
@@ -52,10 +61,10 @@ Definition solver_solve_shared_ref : list (string * string) :=
   [("cancel", "func"); ("ctx", "plain"); ("solutions", "chan"); ("solveInformation", "plain")].
 
 Definition solver_solve_body_ref : list sk :=
-  [(SIf [(SIf [(SReturn)] [])] []); (SIf [(SReturn)] []); (SIf [(SReturn)] []); (SIf [(SReturn)] []); (SCall "Copy"); (SCall "Copy"); (SCall "Random"); (SCall "Int63"); (SRead "ctx"); (SRead "solveInformation"); (SSend "solutions"); (SGo [(SDefer [(SClose "solutions"); (SCall "cancel")]); (SFor [(SRead "solveInformation"); (SRead "solveInformation"); (SRead "solveInformation"); (SRead "solveInformation"); (SRead "solveInformation"); (SFor [(SSelect [("comm", [SRecv "ctx.Done"; (SRead "solveInformation"); (SBreak "Loop")]); ("default", [(SRead "ctx"); (SRead "solveInformation"); (SIf [(SSend "solutions"); (SBreak "Loop")] []); (SIf [(SSend "solutions")] [])])])]); (SFor [(SRead "solveInformation")]); (SRead "solveInformation")]); (SRead "solveInformation")]); (SReturn)].
+  [(SIf [(SIf [(SReturn)] [])] []); (SIf [(SReturn)] []); (SIf [(SReturn)] []); (SIf [(SReturn)] []); (SCall "Copy"); (SCall "Copy"); (SCall "Random"); (SCall "Int63"); (SRead "ctx"); (SCall "WithDeadline"); (SRead "solveInformation"); (SSend "solutions"); (SGo [(SDefer [(SClose "solutions"); (SCall "cancel")]); (SFor [(SRead "solveInformation"); (SRead "solveInformation"); (SRead "solveInformation"); (SRead "solveInformation"); (SRead "solveInformation"); (SFor [(SSelect [("comm", [SRecv "ctx.Done"; (SRead "solveInformation"); (SBreak "Loop")]); ("default", [(SRead "ctx"); (SRead "solveInformation"); (SIf [(SSend "solutions"); (SBreak "Loop")] []); (SIf [(SSend "solutions")] [])])])]); (SFor [(SRead "solveInformation")]); (SRead "solveInformation")]); (SRead "solveInformation")]); (SReturn)].
 
 Definition solver_parallel_wrapper_shared_ref : list (string * string) :=
   [("initialSolutions", "plain"); ("wg", "wg")].
 
 Definition solver_parallel_wrapper_body_ref : list sk :=
-  [(SIf [(SWgAdd "wg"); (SIf [(SReturn)] []); (SFor [(SGo [(SDefer [SWgDone "wg"]); (SIf [(SCall "panic")] [])])]); (SWgWait "wg"); (SRead "initialSolutions")] []); (SIf [(SIf [(SReturn)] [])] []); (SCall "Solve"); (SReturn)].
+  [(SCall "WithDeadline"); (SIf [(SWgAdd "wg"); (SIf [(SReturn)] []); (SFor [(SGo [(SDefer [SWgDone "wg"]); (SIf [(SCall "panic")] [])])]); (SWgWait "wg"); (SRead "initialSolutions")] []); (SIf [(SIf [(SReturn)] [])] []); (SCall "Solve"); (SReturn)].
